@@ -67,6 +67,7 @@ STEP_CAP = 400000
 ISOLATION = "thread"
 
 # states that run into defects already reported; see ASSUMPTIONS
+FIXED_WEAVE_RENAME = True  # /repo 5e832b4: the weave_uncommitted_rename territory is explored in every run now
 GUARDS = ("git_symlink_replaced", "git_dir_file_swap", "git_dir_rename", "git_untracked_in_emptied_dir", "git_rename_onto_vacated_path", "weave_uncommitted_rename")
 P_UNGUARDED = float(os.environ.get("VERIF_UNGUARDED", "0") or 0)
 P_LIFT = 0.15
@@ -305,7 +306,7 @@ def guarded_state(m_this, m_base=None, m_other=None, mtype="merge3"):
             # merge) and that sits at another path than in the basis (uncommitted rename of it
             # or of a directory above it): plan_file_merge looks that path up in the parent trees
             bids = m_this.basis_ids()
-            for q, (fid, ikind) in m_this.inv.items():
+            for q, (fid, ikind) in () if FIXED_WEAVE_RENAME else m_this.inv.items():
                 if ikind != T.FILE and m_this.dkind(q) == T.FILE and fid in bids and bids[fid] != q:
                     return "weave_uncommitted_rename"
         return None
